@@ -7,9 +7,13 @@ from concurrent.futures import ThreadPoolExecutor
 import queue
 V = "/verif"
 args = [a for a in sys.argv[1:] if not a.startswith("-")]
+partial = any(a.startswith("--checks=") for a in sys.argv[1:])
 J = int(([a[2:] for a in sys.argv[1:] if a.startswith("-j")] or ["3"])[0])
 ids = args or sorted(d for d in os.listdir(V + "/selftest/silent") if os.path.isfile("%s/selftest/silent/%s/patch.diff" % (V, d)))
 PIDS = [c["property_id"] for c in json.load(open(V + "/MANIFEST.json"))["checks"]]
+only = [a[len("--checks="):].split(",") for a in sys.argv[1:] if a.startswith("--checks=")]
+if only:
+    PIDS = [p for p in PIDS if p in only[0]]
 root = tempfile.mkdtemp(prefix="rfwt-")
 pool = queue.Queue()
 for i in range(J):
@@ -53,5 +57,6 @@ finally:
     shutil.rmtree(root, ignore_errors=True)
 path = V + "/selftest/silent/RESULTS.json"
 old = json.load(open(path)) if os.path.exists(path) else {}
-old.update(results)
-json.dump(old, open(path, "w"), indent=1)
+if not partial:
+    old.update(results)
+    json.dump(old, open(path, "w"), indent=1)
